@@ -460,6 +460,34 @@ FUNCTIONS = [
         expr_rules=[(r'^trompeloeil::param_matches\(compare, std::ref\(t\)\)$', 'matches_ compare')],
     ),
     dict(
+        name='compare_table', cxx='matcher/compare.hpp: eq ne lt le gt ge and their functors', file='include/trompeloeil/matcher/compare.hpp',
+        kind='compare_table', module='CompareTable', header='',
+    ),
+    dict(
+        name='param_matches_matcher', cxx='trompeloeil::param_matches_impl(t, u, matcher const*)', file=MOCK, module='ParamMatchesMatcher',
+        header=r'param_matches_impl\(\s*T const& t,\s*std::reference_wrapper<U> u,\s*matcher const\*\)\s*noexcept\(noexcept\(t\.matches\(u\.get\(\)\)\)\)',
+        lean_sig='{τ υ : Type} (matches_ : τ → υ → Bool) (t : τ) (u : υ) : Bool',
+        expr_rules=[(r'^t\.matches\(u\.get\(\)\)$', 'matches_ t u')],
+    ),
+    dict(
+        name='param_matches_value', cxx='trompeloeil::param_matches_impl(t, u, void const*)', file=MOCK, module='ParamMatchesValue',
+        header=r'param_matches_impl\(\s*T const& t,\s*std::reference_wrapper<U> u,\s*void const\*\)\s*noexcept\(noexcept\(::trompeloeil::identity<U>\(t\) == u\.get\(\)\)\)',
+        pre=[(r'::trompeloeil::identity<U>\(t\)', 'IDENTITY_U(t)')],
+        lean_sig='{τ υ : Type} (eqv : τ → υ → Bool) (t : τ) (u : υ) : Bool', no_respell=True,
+        # `identity<U>(t)` is `t` itself when `t == u` is well formed and `U(t)` otherwise: the comparison is between the expected
+        # value and the argument, expected value on the left
+        expr_rules=[(r'^IDENTITY_U\(t\) == u\.get\(\)$', 'eqv t u')],
+    ),
+    dict(
+        name='predicate_matches', cxx='predicate_matcher<Predicate, Printer, MatcherType, T...>::matches_', file='include/trompeloeil/matcher.hpp',
+        module='PredicateMatches',
+        header=r'matches_\(V&& v, detail::index_sequence<I\.\.\.>\)\s*const',
+        pre=[(r'Predicate::operator\(\)\(', 'PRED('), (r'std::forward<V>\(v\)', 'v'), (r'std::get<I>\(value\)\.\.\.', 'value')],
+        lean_sig='{α β : Type} (pred : α → β → Bool) (v : α) (value : β) : Bool', no_respell=True,
+        # the actual argument is the predicate's first operand, the stored operand(s) follow
+        expr_rules=[(r'^PRED\(v, value\)$', 'pred v value')],
+    ),
+    dict(
         name='not_matches', cxx='not_matcher<M>::matches', file='include/trompeloeil/matcher/not.hpp', module='NotMatches',
         header=r'matches\(\s*const U& u\)\s*const\s*noexcept\(noexcept\(!std::declval<M>\(\)\.matches\(u\)\)\)',
         lean_sig='(m_matches_u : Bool) : Bool',
